@@ -276,6 +276,11 @@ func (g *docGen) value1(t *TypeRef, locDefault, constant, inList bool, depth int
 		return out
 	}
 	td := g.v.typ(n.Name)
+	if td == nil {
+		// a built-in scalar the schema never mentions (not resolvable by name, still usable
+		// through the definitions that point at it)
+		return g.scalarLit(n.Name, &TypeDesc{Accepts: []string{"custom", "int"}})
+	}
 	switch td.Kind {
 	case "enum":
 		return &GValue{Kind: "enum", Text: hx.Pick(g.r, td.Values)}
